@@ -61,7 +61,15 @@ class _T(ast.NodeTransformer):
             out.append(st)
         return out
 
+    SKIP = {"__eq__", "__ne__", "__hash__", "__repr__", "__str__", "__lt__", "__le__", "__gt__", "__ge__"}
+
     def _visit_fn(self, node):
+        # Comparison / hash methods and property getters are called implicitly by dict and set operations; how often
+        # depends on hash collisions, i.e. on PYTHONHASHSEED (str and bytes paths with the same content even hash
+        # alike, so two watches on one directory given as str and as bytes always collide).  Pre-emption points inside
+        # them would make step numbers depend on the hash seed (found by selftest-determinism), so they get none.
+        if node.name in self.SKIP or any(getattr(d, "id", getattr(d, "attr", None)) in ("property", "cached_property") for d in node.decorator_list):
+            return node
         self.depth += 1
         self.generic_visit(node)
         node.body = self._instrument_body(node.body, skip_doc=True)
